@@ -45,13 +45,25 @@ Theorem C19_linkage : forall (net : list rxn) (iso : list str),
   let arcs := snd (complex_graph net iso) in
   let k := length cs in
   let L := linkage_classes arcs k in
-  n_linkage (compute_summary net iso 0) = length L /\
+  (forall r, n_linkage (compute_summary net iso r) = length L) /\
   NoDup (concat L) /\
   (forall y, In y (concat L) <-> exists i, i < k /\ y = nn i) /\
   (forall c, In c L -> NoDup c /\ c <> []) /\
   (forall i j, i < k -> j < k -> ((exists c, In c L /\ In (nn i) c /\ In (nn j) c) <-> upath arcs i j)).
 Proof. exact net_linkage. Qed.
 Print Assumptions C19_linkage.
+
+(** (2b) fuel sufficiency: the saturation closures of the model (undirected, forward, backward; fuel = number of complexes + 1)
+         never run out of fuel. *)
+Theorem C19_fuel : forall (net : list rxn) (iso : list str) (u : nat),
+  let arcs := snd (complex_graph net iso) in
+  let k := length (fst (complex_graph net iso)) in
+  u < k ->
+  saturate (und_nbr arcs) (S k) [nn u] <> None /\
+  saturate (succs arcs) (S k) [nn u] <> None /\
+  saturate (preds arcs) (S k) [nn u] <> None.
+Proof. exact net_fuel. Qed.
+Print Assumptions C19_fuel.
 
 (** (3) weak reversibility: the verdict is true iff every linkage class is strongly connected, iff every reaction arc
         y -> y' has a directed return path y' -> ... -> y. *)
@@ -95,9 +107,9 @@ Theorem C19_rank_bound : forall (net : list rxn) (iso : list str),
   let n := length (reaction_order net) in
   let F := mathcomp.algebra.rat.rat_fieldType in
   let rankS := @mathcomp.algebra.mxalgebra.mxrank F m n (SK.lib.RankBridge.toM m n (build_S net iso)) in
-  let s := compute_summary net iso 0 in
+  forall r, let s := compute_summary net iso r in
   rankS + n_linkage s <= n_complexes s.
-Proof. exact SK.proof.C19_Rank.rank_bound_le. Qed.
+Proof. intros net iso m n F rankS r. exact (SK.proof.C19_Rank.rank_bound_le net iso r). Qed.
 Print Assumptions C19_rank_bound.
 
 (** (5b) the deficiency is never negative (with the exact, certificate-checked rank). *)
@@ -106,3 +118,34 @@ Theorem C19_nonneg : forall (net : list rxn) (iso : list str) (rc : rcert),
   (0 <= deficiency (compute_summary net iso (rc_r rc)))%Z.
 Proof. exact SK.proof.C19_Rank.deficiency_nonneg. Qed.
 Print Assumptions C19_nonneg.
+
+(** (6) the linkage-class deficiencies n_c - 1 - s_c never sum to more than the network deficiency, with all ranks exact
+         (every certificate — S and one per class — accepted by the proved checker; certs_ok is part of the observable
+         compared on every run).  Core lemma (proof/C19_Rank.v rank_le_class_ranks, for every network): the exact rank of S is
+         at most the sum over the classes of the exact ranks of their difference vectors. *)
+Theorem C19_linkage_sum : forall (net : list rxn) (iso : list str) (rc : rcert) (ccs : list rcert),
+  certs_ok net iso rc ccs = true ->
+  let L := linkage_classes (snd (complex_graph net iso)) (length (fst (complex_graph net iso))) in
+  (zsum (linkage_deficiencies L (map rc_r ccs)) <= deficiency (compute_summary net iso (rc_r rc)))%Z.
+Proof. exact SK.proof.C19_Rank.linkage_sum. Qed.
+Print Assumptions C19_linkage_sum.
+
+(** (7) documentation of the repaired defect (/repo 0eb35ff): the walk over G.edges(r) only (out-arcs of the reaction node
+        = product arcs) gives A + B -> C, C -> A + B three complexes, one of them the zero vector that is no side of any
+        reaction; the repaired walk gives the two complexes. *)
+Theorem C19_outarcs_only_refuted :
+  exists net, NoDup (map rid net) /\
+    fst (complex_graph net []) = [[1;1;0]; [0;0;1]]%Z /\
+    fst (complex_graph_outarcs_only net []) = [[0;0;0]; [0;0;1]; [1;1;0]]%Z /\
+    ~ (forall v, In v (fst (complex_graph_outarcs_only net [])) ->
+         exists e, In e net /\ (v = side_vec net [] (rlhs e) \/ v = side_vec net [] (rrhs e))).
+Proof. exact outarcs_only_refuted. Qed.
+Print Assumptions C19_outarcs_only_refuted.
+
+(** (8) call histories on ONE analyzer object (network edited between the analyses): the model's state machine keeps no
+        information from one analysis to the next — the k-th answer is the answer of a fresh analysis of the k-th network.
+        (The correspondence runs real histories on one DeficiencyAnalyzer; the oracle compares every answer with a fresh one.) *)
+Theorem C19_history_stateless : forall steps : list hist_step,
+  run19_hist steps = SK.lib.Tok.L (map (fun x => run19 (fst (fst (fst x))) (snd (fst (fst x))) (snd (fst x)) (snd x)) steps).
+Proof. exact run19_hist_stateless. Qed.
+Print Assumptions C19_history_stateless.
